@@ -371,6 +371,9 @@ class MarkdownNormalizer(Renderer):
         self._in_heading: bool = False  # Track if we're rendering a heading
         self._in_table_cell: bool = False  # Track if we're rendering a table cell
         self._emphasis_depth: int = 0  # How many (single) emphasis spans enclose the current node
+        # Reverse index of the current document's link reference definitions (see render_link).
+        self._ref_labels_source: Any = None
+        self._ref_labels: dict[Any, str] = {}
         self._list_spacing: ListSpacing = list_spacing
         self._current_list_tight: bool = False  # Whether current list should render tight
         self._first_item_separator: str | None = None  # Set while rendering a list's first item
@@ -717,10 +720,14 @@ class MarkdownNormalizer(Renderer):
         link_text = self.render_children(element)
         link_title = _normalize_title_quotes(element.title) if element.title else None
         assert self.root_node
-        label = next(
-            (k for k, v in self.root_node.link_ref_defs.items() if v == (element.dest, link_title)),
-            None,
-        )
+        # Index the definitions of THIS document once (first label per target wins, as when
+        # scanning them in order); scanning all of them for every link is quadratic.
+        if self._ref_labels_source is not self.root_node.link_ref_defs:
+            self._ref_labels_source = self.root_node.link_ref_defs
+            self._ref_labels = {}
+            for ref_label, ref_target in self.root_node.link_ref_defs.items():
+                self._ref_labels.setdefault(ref_target, ref_label)
+        label = self._ref_labels.get((element.dest, link_title))
         if label is not None:
             # A line break or a run of spaces inside the brackets is layout, not part of
             # the label: `[ref\nlabel]` is the same shortcut reference as `[ref label]`.
